@@ -67,7 +67,7 @@ def make_code(rng, ctx):
         ctx.feature('code_blank_lines_only')
         return b'\n' * rng.randint(1, 4)
     ctx.feature('code_simple')
-    return carts.simple_lua(rng, rng.choice((30, 500, 5000)))
+    return carts.varied_lua(rng, rng.choice((30, 500, 5000)))
 
 
 def observables(g):
